@@ -2,6 +2,7 @@ import QipVerif.Util.Proto
 import QipVerif.Util.RatProto
 import QipVerif.Model.Concat
 import QipVerif.Gen.ConcatSrc
+import QipVerif.Model.PulseStore
 /-! Driver for the concatenation model (C12), run on the description of the source that `py/props/c12.py` regenerates
 (`Gen/ConcatSrc.lean`).  Rationals are `p/q` or `p`.  `scale=r` multiplies the tolerance constants of the source (default 1).
 
@@ -13,6 +14,8 @@ import QipVerif.Gen.ConcatSrc
 * `compile [scale=r] mode=none|sched starts=r,r,… perm=i,j,… instrs=<instr>;<instr>;…`
      `<instr>` = `<tl>@<label>=<coef>&<label>=<coef>…`, `<tl>` = `s:<t>` | `a:<t,…>`, `<coef>` = `s:<c>` | `a:<c,…>`
      → `ok <label>:<tlist>:<coeffs>!…` | `ok none` | `err <kind>` | `unmodelled`
+* `store coeffs=l,l,… tlists=l,l,…` (labels of the items of the two dicts `load_circuit` stores, in dict order; array `k` of a
+     dict is its `k`-th item) → `ok <label>:<tlist no. or ~>:<coeff no.>!…` (the processor's pulses in order) | `err key`
 -/
 open QipVerif QipVerif.Proto QipVerif.RatProto QipVerif.Concat
 
@@ -121,6 +124,18 @@ def step (line : String) : String :=
         | some (.ok none) => "ok none"
         | some (.ok (some outs)) =>
           "ok " ++ "!".intercalate (outs.map fun o => toString o.1 ++ ":" ++ showChanO o.2)
+    | _, _ => "bad-op"
+  | some "store" =>
+    let enum (l : List Nat) : List (Nat × Nat) := l.zip (List.range l.length)
+    match fStr? fs "coeffs", fStr? fs "tlists" with
+    | some c, some t =>
+      match (if c = "-" then some [] else natList? c), (if t = "-" then some [] else natList? t) with
+      | some cl, some tl =>
+        match Store.storePulses (enum cl) (enum tl) with
+        | none => "err key"
+        | some ps => "ok " ++ "!".intercalate (ps.map fun p =>
+            s!"{p.label}:{match p.tl with | some t => toString t | none => "~"}:{p.co}")
+      | _, _ => "bad-op"
     | _, _ => "bad-op"
   | _ => "bad-op"
 
